@@ -5,6 +5,7 @@ import VaxisModel.Model.TextInputCells
 import VaxisModel.Model.TextFieldCl
 import VaxisModel.Model.TextInputCl
 import VaxisModel.Spec.Editor
+import VaxisModel.Spec.EditorView
 
 /-! Driver for C17 (op format: harness/cmd/C17/main.go).  State per case: the widget model, and the
 ideal editor `Spec.Editor` run on the *meaning* of every op; the verdict compares the
@@ -189,7 +190,19 @@ def stepTI (s : St) (op : List String) (impl : String) : St × String :=
         else if got = "panic" then "FAIL draw panics"
         else if fits then verdictEq "cursor_column/cells" got
           s!"col={pw + widthOf s (s.ed.text.take s.ed.cursor)} row={expectRow toString wd s.masked w prompt s.ed.text}"
-        else "ok"
+        else if pw ≥ w then "ok"   -- the prompt fills the window: Draw returns before the text
+        else
+          -- round 3, the scrolled case (independent of the model; `Props.C17Ext.textinput_cells_scrolled` proves the
+          -- same of the model): whatever offset `Draw` settles on (0 ≤ offset ≤ cursor), the row is the prompt
+          -- followed by that window of the ideal text — left truncator iff something is scrolled out, right
+          -- truncator at the grapheme that reaches the edge and nothing after it.  Which offset, and the cursor
+          -- column, are not judged (the property speaks of the cursor column only while the text fits).
+          let rowGot := match got.splitOn " row=" with | [_, r] => r | _ => "?"
+          let window (off : Nat) : String :=
+            rowStr toString w (TextInput.placed wd .g prompt 0 ++
+              VaxisModel.Spec.EditorView.windowCells wd s.masked w (decide (off > 0)) (s.ed.text.drop off) pw)
+          if (List.range (s.ed.cursor + 1)).any fun off => window off == rowGot then "ok"
+          else s!"FAIL scrolled row {rowGot} is not the prompt followed by a window of the text (truncators at the cut ends) for any offset 0..{s.ed.cursor}"
       let row := match TextInput.drawCells wd s.masked s.ti prompt w with
         | some cs => rowStr toString w cs
         | none => "-"
